@@ -22,7 +22,7 @@ import (
 	"vh/vhlib"
 )
 
-//                   Set SetD SetNE SIA Repl Del Get GetWE Cnt Clr Swp Exp Rst Load
+// Set SetD SetNE SIA Repl Del Get GetWE Cnt Clr Swp Exp Rst Load
 var wSource = []int{16, 6, 6, 8, 8, 5, 2, 4, 2, 1, 2, 0, 0, 0}
 var wAfter = []int{10, 3, 3, 6, 8, 5, 5, 14, 8, 1, 8, 3, 0, 1}
 
@@ -156,11 +156,8 @@ func runTickerRoundTrip(r *vhlib.Rng) tickerRes {
 	res := tickerRes{expected: len(live)}
 	blob, err := a.Export()
 	if err != nil || !json.Valid(blob) {
-		res.observed, res.lost = -1, len(live)
+		res.observed, res.lost = 1<<20, len(live)
 		res.detail = map[string]interface{}{"calls": calls, "export_error": fmt.Sprint(err), "blob": string(blob)}
-		if res.observed < 0 {
-			res.observed = 1 << 20
-		}
 		return res
 	}
 	if r.Bool() { // sometimes the short-lived entries are already expired when the blob is loaded
